@@ -2,6 +2,7 @@ package main
 
 import (
 	"fmt"
+	"github.com/uhppoted/uhppote-core/uhppote"
 	"net"
 	"net/netip"
 	"time"
@@ -108,6 +109,47 @@ func runApiStream(o Opts, prop, oracle string, mix apiMix) error {
 				}
 			}
 		}
+	}
+	if prop == "C01" {
+		// SetTime carries the wall clock of the time it is given, whatever the HOST zone: arguments in other Locations whose
+		// wall clock falls into the host zone's skipped hour (and around it), under several host zones
+		defer func() { time.Local = time.UTC }()
+		for _, host := range []string{"America/New_York", "Europe/Amsterdam", "America/Santiago", "Australia/Lord_Howe"} {
+			loc, err := time.LoadLocation(host)
+			if err != nil {
+				continue
+			}
+			time.Local = loc
+			// the instants at which the host zone changes offset in 2024: wall clocks just before / inside / after the gap
+			prev := 0
+			for at := time.Date(2024, 1, 1, 0, 0, 0, 0, time.UTC); at.Year() == 2024; at = at.Add(time.Hour) {
+				_, off := at.In(loc).Zone()
+				if prev != 0 && off != prev {
+					lw := at.Add(time.Duration(prev) * time.Second) // host wall clock (old offset) at the change
+					for _, dm := range []int{-30, 0, 15, 45, 75} {
+						w := lw.Add(time.Duration(dm) * time.Minute)
+						for _, argLoc := range []*time.Location{time.UTC, time.FixedZone("+0545", 5*3600+45*60)} {
+							t := time.Date(w.Year(), w.Month(), w.Day(), w.Hour(), w.Minute(), 7, 0, argLoc)
+							id := genID(r)
+							coq := fmt.Sprintf("SetTime %d %s %s %s %s %s %s", id, zc(t.Year()), zc(int(t.Month())), zc(t.Day()), zc(t.Hour()), zc(t.Minute()), zc(t.Second()))
+							oc := OpCase{Name: "SetTime", ID: id, Coq: coq, Resp: "SetTimeResponse", Code: 0x30, JS: map[string]any{"op": "SetTime", "id": id, "coq": coq}}
+							oc.Run = func(u uhppote.IUHPPOTE) string {
+								res, err := u.SetTime(id, t)
+								if err != nil || res == nil {
+									return "RErr"
+								}
+								return rvals(vn(uint64(res.SerialNumber)), vdatetimeT(res.DateTime))
+							}
+							reply := genReply(r, oc.Resp, id, 0, nil)
+							copy(reply[8:15], []byte{0x20, 0x24, 0x06, 0x15, 0x12, 0x00, 0x00}) // an ordinary date-time in the reply
+							apiCase(s, Cfg{}, oc, Script{Kind: "datagrams", Datagrams: [][]byte{reply}}, "host-zone/"+host+"/SetTime", nil, true)
+						}
+					}
+				}
+				prev = off
+			}
+		}
+		time.Local = time.UTC
 	}
 	if prop == "C06" && s.ReplayWants("net-") {
 		netC06(s, o.Tier)
